@@ -145,6 +145,8 @@ type Client struct {
 	primary provider.Provider
 	// Providers used to "witness" new headers.
 	witnesses []provider.Provider
+	// Number of times the primary has been replaced by a witness (see findNewPrimary).
+	primaryReplacements uint64
 
 	// Where trusted light blocks are stored.
 	trustedStore store.Store
@@ -634,6 +636,8 @@ func (c *Client) verifySequential(
 		trace         = []*types.LightBlock{trustedBlock}
 	)
 
+	replacements := c.numPrimaryReplacements()
+
 	for height := trustedBlock.Height + 1; height <= newLightBlock.Height; height++ {
 		// 1) Fetch interim light block if needed.
 		if height == newLightBlock.Height { // last light block
@@ -642,6 +646,23 @@ func (c *Client) verifySequential(
 			interimBlock, err = c.lightBlockFromPrimary(ctx, height)
 			if err != nil {
 				return ErrVerificationFailed{From: verifiedBlock.Height, To: height, Reason: err}
+			}
+
+			// lightBlockFromPrimary replaces the primary when it does not respond. newLightBlock was
+			// supplied by the previous primary, which may by now be one of the witnesses and would then
+			// confirm its own header in detectDivergence. Make sure the new primary has the same target.
+			if n := c.numPrimaryReplacements(); n != replacements {
+				replacements = n
+				replacementBlock, err := c.lightBlockFromPrimary(ctx, newLightBlock.Height)
+				if err != nil {
+					return ErrVerificationFailed{From: verifiedBlock.Height, To: newLightBlock.Height, Reason: err}
+				}
+				if !bytes.Equal(replacementBlock.Hash(), newLightBlock.Hash()) {
+					return ErrVerificationFailed{From: verifiedBlock.Height, To: newLightBlock.Height,
+						Reason: fmt.Errorf("replacement primary has a different light block (%X) for the target height than the one to verify (%X)",
+							replacementBlock.Hash(), newLightBlock.Hash())}
+				}
+				replacements = c.numPrimaryReplacements()
 			}
 		}
 
@@ -1034,6 +1055,12 @@ func (c *Client) lightBlockFromPrimary(ctx context.Context, height int64) (*type
 	}
 }
 
+func (c *Client) numPrimaryReplacements() uint64 {
+	c.providerMutex.Lock()
+	defer c.providerMutex.Unlock()
+	return c.primaryReplacements
+}
+
 // NOTE: requires a providerMutex lock
 func (c *Client) removeWitnesses(indexes []int) error {
 	// check that we will still have witnesses remaining
@@ -1125,6 +1152,7 @@ func (c *Client) findNewPrimary(ctx context.Context, height int64, remove bool) 
 			// promote respondent as the new primary
 			c.logger.Debug("found new primary", "primary", newPrimary)
 			c.primary = newPrimary
+			c.primaryReplacements++
 
 			// return the light block that new primary responded with
 			return response.lb, nil
